@@ -71,12 +71,15 @@ for g in need_harness + [g for g in sorted(os.listdir(hdir)) if g not in need_ha
     p = os.path.join(hdir, g, "verif.json")
     if os.path.exists(p):
         cfg = json.load(open(p))
+    import re as _re
+    bdir = os.path.join(hdir, g, "src", "bin")
+    bins = cfg.get("bins") or (sorted(f[:-3] for f in os.listdir(bdir) if _re.match(r"c\d\d\w*\.rs$", f)) if os.path.isdir(bdir) else None)
     for prof in cfg.get("profiles", ["release"]):
         try:
-            ctx.harness(g, profile=prof, features=cfg.get("features", ""), hooks=cfg.get("hooks", True))
+            ctx.harness(g, profile=prof, features=cfg.get("features", ""), hooks=cfg.get("hooks", True), bins=bins)
             print("setup: harness %-12s %-8s ok" % (g, prof))
         except vf.CheckerBroken as ex:
-            print("setup: harness %s %s FAILED\n%s" % (g, prof, str(ex)[-1500:]))
-            if required:
-                rc = 1
+            # not fatal: every check builds the binaries it needs itself (and reports a broken build as
+            # CHECKER-BROKEN); the setup only warms the caches
+            print("setup: harness %s %s FAILED (non-fatal; the check will rebuild what it needs)\n%s" % (g, prof, str(ex)[-1500:]))
 sys.exit(rc)
